@@ -14,10 +14,11 @@ sys.path.insert(0, os.environ.get("VERIF_REPO", "/repo"))
 
 props = [json.loads(l) for l in (V / "properties.jsonl").read_text().splitlines() if l.strip()]
 na_reasons = json.loads((V / "tools" / "not_applicable.json").read_text()) if (V / "tools" / "not_applicable.json").exists() else {}
+accepted = set((V / "tools" / "accepted.txt").read_text().split())
 checks, na = [], []
 for p in props:
     pid = p["id"]
-    if not (V / "props" / f"{pid}.py").exists():
+    if pid not in accepted or not (V / "props" / f"{pid}.py").exists():
         na.append({"property_id": pid, "reason": na_reasons.get(pid, "no TLA+ model/monitor built for this property yet; not claimed")})
         continue
     mod = importlib.import_module(f"props.{pid}")
